@@ -1,5 +1,6 @@
 import Klepto.Driver.Wrapper
 import Klepto.Driver.Keys
+import Klepto.Driver.Round
 /-! the driver loop: one JSON object per input line, one JSON object per output line.
 A line with `"op":"cfg"` starts a new trace of the suite named in its `"suite"` field. -/
 namespace Klepto.Driver
@@ -10,6 +11,7 @@ inductive DState
   | wrapper (cfg : Cfg) (s : St Nat Nat)
   | cache (c : Cache Nat Nat)
   | keys (c : KeysCfg)
+  | round
 
 def badOp (msg : String) : Json := Json.mkObj [("bad-op", Json.str msg)]
 
@@ -28,6 +30,7 @@ def startTrace (j : Json) : DState × Json :=
     match keysCfgOf j with
     | .ok c => (.keys c, Json.str "ok")
     | .error e => (.idle, badOp e)
+  | .ok "round" => (.round, Json.str "ok")
   | .ok s => (.idle, badOp s!"unknown suite {s}")
 
 def stepLine (st : DState) (line : String) : DState × Json :=
@@ -46,6 +49,10 @@ def stepLine (st : DState) (line : String) : DState × Json :=
         | .ok op =>
           let (s', o) := step cfg s op
           (.wrapper cfg s', Json.mkObj (("out", jOut o) :: jSt s'))
+      | .round =>
+        match roundStep j with
+        | .ok o => (st, o)
+        | .error e => (st, badOp e)
       | .keys c =>
         match keysStep c j with
         | .ok o => (st, o)
